@@ -49,6 +49,16 @@ def main():
             if fi.module.generated or fi.module.legacy or q.endswith('.setter') or isinstance(fi.node, ast.Lambda):
                 continue
             f.write(f'{q}\t{Program.body_digest(fi.node)}\n')
+    from kpsa.model import local_profile
+    lc = os.path.join(os.path.dirname(os.path.abspath(__file__)), '..', 'kpsa', 'known_locals.txt')
+    with open(lc, 'w', encoding='utf-8') as f:
+        f.write('# local variables of the anchor functions, in order of first binding, with a coarse signature (local-name recovery, see kpsa/model.py)\n')
+        for q, fi in sorted(prog.functions.items()):
+            if fi.module.generated or fi.module.legacy or isinstance(fi.node, ast.Lambda):
+                continue
+            prof = local_profile(fi.node)
+            if prof:
+                f.write(q + '\t' + '\x1e'.join(f'{n}\x1f{sg}' for n, sg in prof) + '\n')
 
 
 main()
